@@ -4,7 +4,8 @@
   (`C08Uniform.C08_uniform_levels_multi` / `_single`, from the pipeline-level Expand theorem), so
   `reorder_line` on a `str` cuts the text on character boundaries only.
 
-  * `C07_total`            — `BidiInfo`, any data source with `FSIWidth`, any well-formed text
+  * `C07_total`            — `BidiInfo`, any data source (no FSI-width proviso is needed any more, since the
+    repair of finding D10), any well-formed text
   * `C07_total_single`     — `ParagraphBidiInfo`, the same
   * `C07_total_str`        — every `&str`, built-in tables, `BidiInfo`
   * `C07_total_str_single` — every `&str`, built-in tables, `ParagraphBidiInfo`
@@ -21,24 +22,24 @@ theorem uniformOn_iff {α} (t : Text) (xs : List α) : C03.UniformOn t xs ↔ C0
 /-- `BidiInfo`: construction and every query (`reordered_levels`, `reordered_levels_per_char`, `visual_runs`,
     `reorder_visual`, `reorder_line`) on every non-empty line (inside the text; on character boundaries for a
     `str`) with every paragraph return normally -/
-theorem C07_total (ds : DataSource) (t : Text) (hwf : t.WF) (hfsi : C02.FSIWidth ds t) (d : Option Nat)
+theorem C07_total (ds : DataSource) (t : Text) (hwf : t.WF) (d : Option Nat)
     (hd : d = none ∨ d = some 0 ∨ d = some 1) :
     (bidiInfo ds t d).err = none ∧
     ∀ p ∈ (bidiInfo ds t d).paras, ∀ a b, a < b → b ≤ t.len →
       (t.enc = .utf8 → t.isBoundary a = true ∧ t.isBoundary b = true) →
       C07.LineQueriesOK t (bidiInfo ds t d).classes (bidiInfo ds t d).levels p.level a b :=
-  C07.C07_total_partial ds t hwf hfsi d hd
-    (fun _ => (uniformOn_iff t _).2 (C08Uniform.C08_uniform_levels_multi ds t hwf hfsi d))
+  C07.C07_total_partial ds t hwf d hd
+    (fun _ => (uniformOn_iff t _).2 (C08Uniform.C08_uniform_levels_multi ds t hwf d))
 
 /-- `ParagraphBidiInfo`: construction and every query on every non-empty line return normally -/
-theorem C07_total_single (ds : DataSource) (t : Text) (hwf : t.WF) (hfsi : C02.FSIWidth ds t)
+theorem C07_total_single (ds : DataSource) (t : Text) (hwf : t.WF)
     (d : Option Nat) (hd : d = none ∨ d = some 0 ∨ d = some 1) :
     (paragraphBidiInfo ds t d).err = none ∧
     ∀ a b, a < b → b ≤ t.len → (t.enc = .utf8 → t.isBoundary a = true ∧ t.isBoundary b = true) →
       C07.LineQueriesOK t (paragraphBidiInfo ds t d).classes (paragraphBidiInfo ds t d).levels
         (paragraphBidiInfo ds t d).paraLevel a b :=
-  C07.C07_total_single_partial ds t hwf hfsi d hd
-    (fun _ => (uniformOn_iff t _).2 (C08Uniform.C08_uniform_levels_single ds t hwf hfsi d))
+  C07.C07_total_single_partial ds t hwf d hd
+    (fun _ => (uniformOn_iff t _).2 (C08Uniform.C08_uniform_levels_single ds t hwf d))
 
 /-- **every `&str`, built-in data — complete** (`BidiInfo`): for every list of scalar values, each
     base-direction choice: the construction returns normally, and so does every query on every non-empty
@@ -49,8 +50,7 @@ theorem C07_total_str (cs : List Nat) (d : Option Nat) (hd : d = none ∨ d = so
     ∀ p ∈ (bidiInfo hardcoded t d).paras, ∀ a b, a < b → t.isBoundary a = true → t.isBoundary b = true →
       C07.LineQueriesOK t (bidiInfo hardcoded t d).classes (bidiInfo hardcoded t d).levels p.level a b :=
   C07.C07_total_str_partial cs d hd
-    ((uniformOn_iff _ _).2 (C08Uniform.C08_uniform_levels_multi hardcoded _ (C01.Base.ofScalars_WF cs)
-      (C07.hardcoded_FSIWidth _ (C01.Base.ofScalars_WF cs)) d))
+    ((uniformOn_iff _ _).2 (C08Uniform.C08_uniform_levels_multi hardcoded _ (C01.Base.ofScalars_WF cs) d))
 
 /-- the same for `ParagraphBidiInfo` -/
 theorem C07_total_str_single (cs : List Nat) (d : Option Nat) (hd : d = none ∨ d = some 0 ∨ d = some 1) :
@@ -61,7 +61,7 @@ theorem C07_total_str_single (cs : List Nat) (d : Option Nat) (hd : d = none ∨
         (paragraphBidiInfo hardcoded t d).paraLevel a b := by
   intro t
   have hwf : t.WF := C01.Base.ofScalars_WF cs
-  obtain ⟨m1, m2⟩ := C07_total_single hardcoded t hwf (C07.hardcoded_FSIWidth t hwf) d hd
+  obtain ⟨m1, m2⟩ := C07_total_single hardcoded t hwf d hd
   refine ⟨m1, fun a b hab ha hbb => m2 a b hab ?_ (fun _ => ⟨ha, hbb⟩)⟩
   rcases (Lemmas.C03.isBoundary_iff t b).1 hbb with h | ⟨s, hs, h⟩
   · omega
@@ -80,7 +80,7 @@ example : C07.LineQueriesOK C02.exText (bidiInfo hardcoded C02.exText none).clas
 
 /-- the general form on the same text -/
 example : (bidiInfo hardcoded C02.exText none).err = none ∧ (paragraphBidiInfo hardcoded C02.exText none).err = none :=
-  ⟨(C07_total hardcoded C02.exText C02.exText_wf C02.exText_fsi none (Or.inl rfl)).1,
-   (C07_total_single hardcoded C02.exText C02.exText_wf C02.exText_fsi none (Or.inl rfl)).1⟩
+  ⟨(C07_total hardcoded C02.exText C02.exText_wf none (Or.inl rfl)).1,
+   (C07_total_single hardcoded C02.exText C02.exText_wf none (Or.inl rfl)).1⟩
 
 end UBidi.Props.C07Total
